@@ -95,6 +95,19 @@ func judge(c Case, w *vkit.W) {
 	if !bytes.Equal(refOut, refCopy) {
 		w.Fail(c, "earlier-result-modified", fmt.Sprintf("%s: the result of the first call changed during the second call: %q -> %q", c.Pkg, refCopy, refOut))
 	}
+	// the returned bytes belong to the caller: after it overwrote them, formatting again must give the same text
+	for i := range refOut {
+		refOut[i] = '#'
+	}
+	for i := range out {
+		out[i] = '#'
+	}
+	if again, err := c.call(nil); err != nil || !bytes.Equal(again, refCopy) {
+		w.Fail(c, "result-storage-shared", fmt.Sprintf("%s formatter: after the caller overwrote an earlier result, formatting into nil gives %q, %v; want %q", c.Pkg, again, err, refCopy))
+	}
+	if again, err := c.call(make([]byte, 0, 8)); err != nil || !bytes.Equal(again, refCopy) {
+		w.Fail(c, "result-storage-shared", fmt.Sprintf("%s formatter: after the caller overwrote an earlier result, formatting into an empty buffer gives %q, %v; want %q", c.Pkg, again, err, refCopy))
+	}
 }
 
 var alphabets = map[string]string{
